@@ -3,6 +3,7 @@ from __future__ import annotations
 
 import ast
 
+from ..nf import to_nf, NFUnsupported
 from ..astutil import (call_name, calls_in, const_value, find_func, is_self_attr, names_in, parse_expr, parse_stmt,
                        replace_node)
 from ..cfg import CFG
@@ -78,67 +79,103 @@ def _r1(ctx):
                          "dropping or re-ordering samples outside the turning-point detection changes the junction of the passes"
                          % (fe.name, norm_text(redefs[0]) if redefs else "argument is not the parameter", callee),
                          text="samples altered in " + fe.name)
+    # the adjustment and the flush decision, on the symbolic value of the function (helpers followed, find_turns opaque):
+    # returns (S', flush) with S' = zero ++ samples in both layouts and
+    # flush = (len(A) - 1  in  find_turns(concatenate([A, B]))[0]), A = the loads of pass 1 (one per load step), B = what pass 2
+    # continues with, i.e. A without the prepended zero.
+    from ..absint import Interp, TermDomain, Seq, term_walk, term_alternatives, term_to_nf
     fa = prog.func(D + "_adjust_samples_and_flush_for_hcm_first_run")
-    zeros = [c for c in calls_in(fa.node) if call_name(c) == "np.concatenate" and c.args and isinstance(c.args[0], ast.List) and
-             isinstance(c.args[0].elts[0], ast.List) and [const_value(x) for x in c.args[0].elts[0].elts] == [0]]
-    multi0 = [c for c in calls_in(fa.node) if call_name(c) == "pd.Series" and c.args and const_value(c.args[0]) == 0]
-    if zeros and multi0:
-        ctx.holds(fa, zeros[0], "a zero load is prepended (scalar and multi-point input)")
-    else:
+    it = Interp(prog, TermDomain(), follow=lambda c_: not c_.name.endswith("find_turns"))
+    tv = it.run(fa, [("p", q) for q in fa.params if q != "self"])
+    pairs = [x for x in term_alternatives(tv) if isinstance(x, Seq) and len(x) == 2]
+    if len(pairs) != 1:
+        raise AnalysisError("_adjust_samples_and_flush_for_hcm_first_run: returned (samples, flush) pair not recognised")
+    S1, F = pairs[0]
+
+    def zero_first(z):
+        if isinstance(z, tuple) and z[:1] == ("call",) and z[1] in ("np.concatenate", "pd.concat", "np.append", "np.hstack") and z[2]:
+            parts = list(z[2][0]) if isinstance(z[2][0], Seq) else list(z[2])
+            first = parts[0] if parts else None
+            if isinstance(first, Seq) and tuple(first) == (("c", 0),):
+                return True
+            if isinstance(first, tuple) and first[:2] == ("series", ("c", 0)):
+                return True
+            if first in (("c", 0), ("c", 0.0)):
+                return True
+        if isinstance(z, tuple) and z[:1] == ("call",) and z[1] in ("np.insert",) and len(z[2]) >= 3 and z[2][1] == ("c", 0) and \
+                z[2][2] in (("c", 0), ("c", 0.0)):
+            return True
+        return False
+    layouts = term_alternatives(S1)
+    if len(layouts) >= 2 and all(zero_first(z) for z in layouts):
+        ctx.holds(fa, fa.node, "a zero load is prepended (scalar and multi-point input)")
+    elif any(z == ("p", fa.params[-1]) or not zero_first(z) for z in layouts) and len(layouts) >= 1 and \
+            all(isinstance(z, tuple) for z in layouts) and any(zero_first(z) for z in layouts) or \
+            all(z == ("p", fa.params[-1]) for z in layouts):
         ctx.violated(fa, fa.node, "first-run adjustment does not prepend a zero load in both input layouts", text="zero prepend")
-    # look-ahead for the flush decision: T = concatenate([A, B]); flush iff index len(A)-1 is a turning point of T.
-    # A is what pass 1 processes (zero-prefixed); B must be what pass 2 processes, i.e. the same samples WITHOUT the zero.
-    dbl = [s for s in fa.node.body if isinstance(s, ast.Assign) and isinstance(s.value, ast.Call) and call_name(s.value) == "np.concatenate"
-           and isinstance(s.value.args[0], ast.List) and len(s.value.args[0].elts) == 2 and isinstance(s.targets[0], ast.Name) and
-           any((call_name(c) or "").endswith("find_turns") and c.args and isinstance(c.args[0], ast.Name) and
-               c.args[0].id == s.targets[0].id for c in calls_in(fa.node))]
-    test = [s for s in fa.node.body if isinstance(s, ast.If) and isinstance(s.test, ast.Compare) and isinstance(s.test.ops[0], ast.NotIn)]
-    if len(dbl) != 1 or not test:
-        raise AnalysisError("_adjust_samples_and_flush_for_hcm_first_run: look-ahead sequence / flush test not found")
-    A, B = dbl[0].value.args[0].elts
-    seq = norm_text(A)
-    ok = norm_text(test[0].test.left) == "len(%s) - 1" % seq and \
-        any(isinstance(x, ast.Assign) and const_value(x.value) is False for x in test[0].body)
-    rt = [s for s in fa.node.body if isinstance(s, ast.Return)][-1]
-    fname = rt.value.elts[1].id if isinstance(rt.value, ast.Tuple) and len(rt.value.elts) == 2 and \
-        isinstance(rt.value.elts[1], ast.Name) else None
-    init = [s for s in fa.node.body if isinstance(s, ast.Assign) and isinstance(s.targets[0], ast.Name) and
-            s.targets[0].id == fname and const_value(s.value) is True]
-    ok = ok and any(isinstance(x, ast.Assign) and isinstance(x.targets[0], ast.Name) and x.targets[0].id == fname
-                    for x in test[0].body) and bool(init)
-    if ok:
-        ctx.holds(fa, test[0], "flush iff the last sample of pass 1 (index len(A)-1) is a turning point of the look-ahead sequence")
     else:
-        ctx.violated(fa, test[0], "flush decision is not 'the last sample of pass 1 is a turning point of the look-ahead sequence'",
+        raise AnalysisError("_adjust_samples_and_flush_for_hcm_first_run: the adjusted samples %r are not recognised" %
+                            ([z[:2] if isinstance(z, tuple) else z for z in layouts],))
+    if not (isinstance(F, tuple) and len(F) == 4 and F[0] == "cmp" and F[1] in ("in", "notin")):
+        raise AnalysisError("_adjust_samples_and_flush_for_hcm_first_run: flush decision %r is not a membership test" %
+                            (F[:2] if isinstance(F, tuple) else F,))
+    last, where = F[2], F[3]
+    dbl = None
+    if isinstance(where, tuple) and len(where) == 3 and where[0] == "at" and where[2] == ("c", 0) and isinstance(where[1], tuple) and \
+            where[1][:1] == ("call",) and where[1][1].endswith("find_turns") and where[1][2]:
+        cc = where[1][2][0]
+        if isinstance(cc, tuple) and cc[:2] == ("call", "np.concatenate") and cc[2] and isinstance(cc[2][0], Seq) and len(cc[2][0]) == 2:
+            dbl = cc
+    if dbl is None:
+        raise AnalysisError("_adjust_samples_and_flush_for_hcm_first_run: look-ahead sequence / flush test not found")
+    A, B = dbl[2][0]
+    len_a = ("call", "len", (A,), ())
+    try:
+        nf_ok = term_to_nf(last, lambda z: "LA" if z == len_a else None) == to_nf(parse_expr("LA - 1"))
+    except NFUnsupported:
+        nf_ok = False
+    if F[1] == "in" and nf_ok:
+        ctx.holds(fa, fa.node, "flush iff the last sample of pass 1 (index len(A)-1) is a turning point of the look-ahead sequence")
+    else:
+        ctx.violated(fa, fa.node, "flush decision is not 'the last sample of pass 1 is a turning point of the look-ahead sequence'",
                      text="flush decision")
 
-    def without_first(e, base):
-        # base[1:], np.asarray(base)[1:], base.iloc[1:], base.values[1:]
-        if isinstance(e, ast.Subscript) and isinstance(e.slice, ast.Slice) and const_value(e.slice.lower) == 1 and \
-                e.slice.upper is None and e.slice.step is None:
-            v = e.value
-            while True:
-                if isinstance(v, ast.Attribute) and v.attr in ("iloc", "values"):
-                    v = v.value
-                elif isinstance(v, ast.Call) and (call_name(v) or "") in ("np.asarray", "np.array") and v.args:
-                    v = v.args[0]
-                else:
-                    break
-            return norm_text(v) == base
-        return False
-    if without_first(B, seq):
-        ctx.holds(fa, dbl[0], "look-ahead = pass-1 samples (zero-prefixed) followed by the same samples without the zero, i.e. what "
+    def strip(z):
+        while isinstance(z, tuple) and len(z) == 3 and z[0] == "attr" and z[2] in ("iloc",):
+            z = z[1]
+        return z
+
+    def without_first(b_, a_):
+        return isinstance(b_, tuple) and len(b_) == 3 and b_[0] == "at" and b_[2] == ("slice", ("c", 1), None, None) and strip(b_[1]) == a_
+    site = next((s_ for s_ in walk_function(fa.node) if isinstance(s_, ast.Assign) and isinstance(s_.value, ast.Call) and
+                 call_name(s_.value) == "np.concatenate" and any((call_name(c_) or "").endswith("find_turns") for c_ in calls_in(fa.node))),
+                fa.node)
+    for f2 in [fi2 for k2, fi2 in prog.functions.items() if fi2.cls is fa.cls]:
+        for s_ in walk_function(f2.node):
+            if isinstance(s_, ast.Assign) and isinstance(s_.value, ast.Call) and call_name(s_.value) == "np.concatenate" and \
+                    isinstance(s_.targets[0], ast.Name) and any((call_name(c_) or "").endswith("find_turns") and c_.args and
+                                                                isinstance(c_.args[0], ast.Name) and c_.args[0].id == s_.targets[0].id
+                                                                for c_ in calls_in(f2.node)):
+                site, fa_site = s_, f2
+                break
+        else:
+            continue
+        break
+    else:
+        fa_site = fa
+    if without_first(B, A):
+        ctx.holds(fa_site, site, "look-ahead = pass-1 samples (zero-prefixed) followed by the same samples without the zero, i.e. what "
                   "pass 2 processes")
-    elif norm_text(B) == seq:
-        ctx.violated(fa, dbl[0], "the look-ahead sequence repeats the ZERO-PREFIXED samples (%s): the last sample of pass 1 is compared "
+    elif B == A:
+        ctx.violated(fa, fa.node, "the look-ahead sequence repeats the ZERO-PREFIXED samples: the last sample of pass 1 is compared "
                      "with the artificial zero load, but pass 2 continues with the first real sample. A last sample that is not a "
                      "reversal of the repeated sequence (e.g. 100,-60,40,-20,60: -20 -> 60 -> 100) is flushed as if it were one, and "
-                     "a last sample between zero and the first sample is held back although it is a reversal" % norm_text(dbl[0].value),
+                     "a last sample between zero and the first sample is held back although it is a reversal",
                      text="look-ahead = A ++ A (zero-prefixed samples repeated)")
     else:
-        ctx.violated(fa, dbl[0], "the look-ahead sequence for the flush decision is %s; it must be the pass-1 samples followed by what "
-                     "pass 2 processes (the same samples without the prepended zero)" % norm_text(dbl[0].value),
-                     text="look-ahead = A ++ " + norm_text(B).replace(seq, "A"))
+        ctx.violated(fa_site, site, "the look-ahead sequence for the flush decision is A ++ B with B = %r; it must be the pass-1 "
+                     "samples followed by what pass 2 processes (the same samples without the prepended zero)" % (B[:3] if isinstance(B, tuple) else B,),
+                     text="look-ahead = A ++ other")
 
 
 def _r2(ctx):
